@@ -79,7 +79,7 @@ func c12Decls() []c12Decl {
 }
 
 // the designatable paths of the project tree (bit i of the tree mask = present)
-var c12Paths = []string{"o1", "dir/o2", "a.gen", "b.gen", "gen/x.o", "o3", "sub/o4", "sub/o5", "o1.log", "dir2.tar", ".cache/y.o", "cache/y.o", "o[1].txt", "o1.txt", "ready?.md", "readyX.md", "@lnk", "@dlnk", "out/$arch", "out/arm", "out/${arch}.o", "out/arm.o", "out/.o", "~", "@rodir", "@fifo"}
+var c12Paths = []string{"o1", "dir/o2", "a.gen", "b.gen", "gen/x.o", "o3", "sub/o4", "sub/o5", "o1.log", "dir2.tar", ".cache/y.o", "cache/y.o", "o[1].txt", "o1.txt", "ready?.md", "readyX.md", "@lnk", "@dlnk", "out/$arch", "out/arm", "out/${arch}.o", "out/arm.o", "out/.o", "~", "@rodir", "@fifo", "gen/.h.o"}
 
 // c12Relevant: indexes into c12Paths of the paths a declaration designates or could be confused with
 func c12Relevant(id string) []int {
@@ -102,7 +102,9 @@ func c12Relevant(id string) []int {
 	case "glob-top":
 		return pi("a.gen", "b.gen")
 	case "glob-nested", "glob-dot-slash", "glob-nested-also-dep":
-		return pi("gen/x.o", "@fifo")
+		// gen/.h.o: a hidden file below the top level matches gen/*.o like any other (only a relative
+		// path that begins with a dot is left out)
+		return pi("gen/x.o", "@fifo", "gen/.h.o")
 	case "glob-hidden-dir":
 		return pi(".cache/y.o", "cache/y.o")
 	case "var-rel":
